@@ -29,6 +29,7 @@ struct Outcome {
     live_delivered: u32,
     max_alloc_ratio_milli: u64,
     last: (usize, usize, String),
+    identities_burnt: u32,
 }
 
 async fn scenario(w: World, case_seed: u64, n_inject: usize, disabled: Vec<usize>, progress: String, case: u64, only_idx: Option<Vec<usize>>) -> Outcome {
@@ -44,6 +45,7 @@ async fn scenario(w: World, case_seed: u64, n_inject: usize, disabled: Vec<usize
         live_delivered: 0,
         max_alloc_ratio_milli: 0,
         last: (0, 0, String::new()),
+        identities_burnt: 0,
     };
     w.net.enable_sent_log(600, true);
     let wq = DataWriterQos {
@@ -109,6 +111,8 @@ async fn scenario(w: World, case_seed: u64, n_inject: usize, disabled: Vec<usize
     // attack
     let enabled: Vec<usize> = (0..CLASSES.len()).filter(|c| !disabled.contains(c)).collect();
     let mut rng = Rng::new(case_seed ^ 0xa77ac);
+    // every datagram actually injected (to find out afterwards which participant identities were claimed)
+    let mut injected_bytes: Vec<Vec<u8>> = Vec::new();
     for k in 0..n_inject {
         let class = *rng.pick(&enabled);
         let dst = if rng.chance(0.8) { 0 } else { 1 };
@@ -130,8 +134,10 @@ async fn scenario(w: World, case_seed: u64, n_inject: usize, disabled: Vec<usize
         sim.take_alloc_window();
         // multi-datagram classes: the leading datagrams go in back to back, the last one is the announced one
         for (i, g) in grams.into_iter().enumerate() {
+            injected_bytes.push(g.clone());
             w.net.inject(dst, g, i as i64 * 1000);
         }
+        injected_bytes.push(bytes.clone());
         w.net.inject(dst, bytes, 100 * US);
         sim.sleep(2 * MS).await;
         let a = sim.take_alloc_window();
@@ -195,6 +201,32 @@ async fn scenario(w: World, case_seed: u64, n_inject: usize, disabled: Vec<usize
         history: keep_all(),
         ..Default::default()
     };
+    // "Never impersonated" has to be made true: the factory numbers its participants (GUID prefix =
+    // host id, app id, instance counter), so a forged datagram can name the identity the NEXT
+    // participant is going to get (a captured announcement whose prefix field was changed by +1 does
+    // exactly that) and thereby poison what the victim believes about it before it exists - the same
+    // legitimate effect as for the existing peer. Identities named by an injected datagram are
+    // therefore burnt (participant created and deleted again) until the next one is clean.
+    let p0_prefix: [u8; 16] = parts[0].0.get_instance_handle().into();
+    let mut next_id = parts.len() as u32;
+    for _ in 0..64 {
+        let mut next_prefix = p0_prefix[..12].to_vec();
+        next_prefix[8..12].copy_from_slice(&next_id.to_ne_bytes());
+        if !injected_bytes.iter().any(|d| d.windows(12).any(|x| x == &next_prefix[..])) {
+            break;
+        }
+        if std::env::var("C06_DUMP").is_ok() {
+            eprintln!("identity {} was claimed by an injected datagram: burnt", vcore::hex(&next_prefix));
+        }
+        let Ok(Ok(dummy)) = sim.timeout(SEC, w.factory.create_participant(0, QosKind::Default, NO_LISTENER, NO_STATUS)).await else {
+            out.api_ok = false;
+            return out;
+        };
+        let _ = sim.timeout(SEC, w.factory.delete_participant(&dummy)).await;
+        next_id += 1;
+        out.identities_burnt += 1;
+    }
+    drop(injected_bytes);
     let Ok(Ok(dpc)) = sim.timeout(SEC, w.factory.create_participant(0, QosKind::Default, NO_LISTENER, NO_STATUS)).await else {
         out.api_ok = false;
         return out;
@@ -327,6 +359,7 @@ pub fn run_child(shard: &Shard) -> Report {
                 rep.stat("datagrams_injected", o.injected.len() as i128);
                 rep.stat("live_samples_delivered_during_attack", o.live_delivered as i128);
                 rep.maxstat("max_alloc_as_permille_of_bound", o.max_alloc_ratio_milli as i128);
+                rep.stat("fresh_peer_identities_claimed_by_injected_datagrams_and_skipped", o.identities_burnt as i128);
                 for (c, len, _) in &o.injected {
                     rep.stat(&format!("class:{}", CLASSES[*c]), 1);
                     rep.nontrivial(vcore::mix(*c as u64, (*len as u64 / 8) << 8 | (stats.poll_hash & 0xff)));
